@@ -80,6 +80,7 @@ func langFor(name string) string {
 }
 
 var repoNames = []string{"github.com/a/foo", "github.com/a/bar", "gitlab.com/b/foo", "r1", "github.com/c/needle", "example.org/été"}
+
 // some names contain others (dev / dev-old, release / release/2): substring vs exact matters
 var branchPool = []string{"dev", "release", "feature/x", "v1.0", "dev-old", "release/2"}
 var symKinds = []string{"function", "class", "variable", "method", ""}
